@@ -212,6 +212,29 @@ fn painted_extent(pm: &tiny_skia::Pixmap) -> Option<(u32, u32, u32, u32)> {
     if any { Some((x0, y0, x1, y1)) } else { None }
 }
 
+/// Extent for comparing two renderings of the same node: pixels of alpha <= 2 do not count.  Measured: the residue of a mask
+/// that carries its own mask is 2 pixels of alpha 1, 6 rows below the content (corpus/witness/C19-mask-on-mask-export.svg, rows
+/// 105-106 of the full rendering), present or not depending on the sub-pixel phase of the CLI's truncated placement.  Faint
+/// hairlines (alpha 20-45) DO count; pattern-painted documents are compared by the exact placement rule of c12.py instead.
+fn robust_extent(pm: &tiny_skia::Pixmap) -> Option<(u32, u32, u32, u32)> {
+    let (w, h) = (pm.width(), pm.height());
+    let d = pm.data();
+    let (mut x0, mut y0, mut x1, mut y1) = (u32::MAX, u32::MAX, 0u32, 0u32);
+    let mut any = false;
+    for y in 0..h {
+        for x in 0..w {
+            if d[((y * w + x) * 4 + 3) as usize] > 2 {
+                any = true;
+                x0 = x0.min(x);
+                y0 = y0.min(y);
+                x1 = x1.max(x + 1);
+                y1 = y1.max(y + 1);
+            }
+        }
+    }
+    if any { Some((x0, y0, x1, y1)) } else { None }
+}
+
 fn ext_json(e: Option<(u32, u32, u32, u32)>) -> String {
     match e {
         Some((a, b, c, d)) => format!("[{},{},{},{}]", a, b, c, d),
@@ -269,7 +292,7 @@ fn op_cli_export(payload: &str) -> String {
                 };
                 ndiff = diff_pixmaps(&pm, &r, 0).0 as i64;
             }
-            out.push_str(&format!(",\"export\":{{\"size\":[{},{}],\"ndiff_vs_render_node\":{}}}", pm.width(), pm.height(), ndiff));
+            out.push_str(&format!(",\"export\":{{\"size\":[{},{}],\"ndiff_vs_render_node\":{},\"extent_plain\":{}}}", pm.width(), pm.height(), ndiff, ext_json(painted_extent(&pm))));
         }
     }
     let psz = tree.size().to_int_size();
@@ -287,13 +310,13 @@ fn op_cli_export(payload: &str) -> String {
                 let t = it.parent_true.pre_concat(inv).pre_translate(lb.x(), lb.y());
                 let mut r = tiny_skia::Pixmap::new(psz.width(), psz.height()).unwrap();
                 if resvg::render_node(node, t, &mut r.as_mut()).is_some() {
-                    refext = painted_extent(&r);
+                    refext = robust_extent(&r);
                     ok_ref = true;
                 }
             }
             out.push_str(&format!(
-                ",\"page\":{{\"size\":[{},{}],\"expected_size\":[{},{}],\"extent\":{},\"ref_ok\":{},\"ref_extent\":{}}}",
-                pm.width(), pm.height(), psz.width(), psz.height(), ext_json(painted_extent(&pm)), ok_ref, ext_json(refext)
+                ",\"page\":{{\"size\":[{},{}],\"expected_size\":[{},{}],\"extent\":{},\"ref_ok\":{},\"ref_extent\":{},\"extent_plain\":{}}}",
+                pm.width(), pm.height(), psz.width(), psz.height(), ext_json(robust_extent(&pm)), ok_ref, ext_json(refext), ext_json(painted_extent(&pm))
             ));
         }
     }
